@@ -165,14 +165,12 @@ pub async fn run_history(max_sessions: usize, evs: &[Ev], grace: Duration, ev: &
                 if live.len() >= limit {
                     // the oldest must go, everybody else must stay
                     let oldest = live.remove(0);
-                    // a connection that is still inside the handshake gives its place away but is only
-                    // dropped when the handshake ends: nothing is claimed about its socket
-                    let gone = if oldest.silent.is_some() {
+                    // a connection that is still inside the handshake is a session like any other: evicted
+                    // means closed
+                    if oldest.silent.is_some() {
                         ev.count("tls_silent_connections_evicted", 1);
-                        true
-                    } else {
-                        wait_until(|| oldest.disconnected(), grace * 10).await
-                    };
+                    }
+                    let gone = wait_until(|| oldest.disconnected(), grace * 10).await;
                     ev.count("tls_evictions_expected", 1);
                     if !gone {
                         reqno += 1;
@@ -221,7 +219,7 @@ pub async fn run_history(max_sessions: usize, evs: &[Ev], grace: Duration, ev: &
                     // a connection arriving at the limit may evict the oldest session even though it never
                     // becomes one itself ("a new connection arriving at the limit is accepted and the oldest
                     // session is closed"): either outcome is accepted, the model follows what happened
-                    if live[0].silent.is_some() || live[0].disconnected() {
+                    if live[0].disconnected() {
                         ev.count("tls_oldest_evicted_by_connection_that_failed_its_handshake", 1);
                         let o = live.remove(0);
                         if let Some(c) = &o.channel { let _ = c.shutdown().await; }
@@ -239,12 +237,10 @@ pub async fn run_history(max_sessions: usize, evs: &[Ev], grace: Duration, ev: &
                 tokio::time::sleep(grace).await;
                 if live.len() >= limit {
                     let oldest = live.remove(0);
-                    let gone = if oldest.silent.is_some() {
+                    if oldest.silent.is_some() {
                         ev.count("tls_silent_connections_evicted", 1);
-                        true
-                    } else {
-                        wait_until(|| oldest.disconnected(), grace * 10).await
-                    };
+                    }
+                    let gone = wait_until(|| oldest.disconnected(), grace * 10).await;
                     ev.count("tls_evictions_expected", 1);
                     if !gone {
                         problems.push(("tls:oldest_not_evicted_at_limit:by_silent_connection".to_string(), format!("step {step}: a (silent) connection arrived at the limit ({limit}) but the oldest session (client {}) is still open", oldest.id)));
@@ -257,6 +253,8 @@ pub async fn run_history(max_sessions: usize, evs: &[Ev], grace: Duration, ev: &
                 if !live.is_empty() {
                     let p = live.remove(k % live.len());
                     if let Some(c) = &p.channel { let _ = c.shutdown().await; }
+                    // a silent peer leaves by closing its socket: do that now, not after the grace period
+                    drop(p);
                     ev.count("tls_clients_left", 1);
                     tokio::time::sleep(grace).await;
                 }
@@ -297,9 +295,6 @@ pub async fn run_history(max_sessions: usize, evs: &[Ev], grace: Duration, ev: &
         problems.push(("tls:server_task_did_not_end".into(), "the TLS server task did not end within 10 s after its handle was dropped".into()));
     }
     for p in &live {
-        if p.silent.is_some() {
-            continue;
-        }
         let gone = wait_until(|| p.disconnected(), grace * 10).await;
         ev.count("tls_sessions_checked_closed_at_shutdown", 1);
         if !gone && problems.is_empty() {
